@@ -479,3 +479,291 @@ Proof.
 Qed.
 
 End View.
+
+(* ================================================================== *)
+(* 7.4 the star schedule                                               *)
+(* ================================================================== *)
+
+Fixpoint mapM {A B} (g : A -> Res B) (xs : list A) : Res (list B) :=
+  match xs with
+  | [] => Ok []
+  | x :: t => y <- g x ;; ys <- mapM g t ;; Ok (y :: ys)
+  end.
+
+(* what a follower has queued for the leader *)
+Definition replies (lid : N) (F1 : raft) : list msg := to_peer lid (r_msgs F1).
+
+(* one lock-step round between a leader L and followers Fs (in list order):
+   1. every message L has queued is delivered to its addressee among Fs, in order
+      (L's queue is then emptied);
+   2. the replies of each follower go back to L, follower after follower in list order
+      (each follower's queue is emptied);
+   3. everybody ticks once. *)
+Definition star_round (L : raft) (Fs : list raft) : Res (raft * list raft) :=
+  Fs1 <- mapM (fun F => steps F (to_peer (r_id F) (r_msgs L))) Fs ;;
+  L1 <- steps (L <| r_msgs := [] |>) (concat (map (replies (r_id L)) Fs1)) ;;
+  L2 <- tick L1 ;;
+  Fs2 <- mapM (fun F1 => x <- tick (F1 <| r_msgs := [] |>) ;; Ok (fst x)) Fs1 ;;
+  Ok (fst L2, Fs2).
+
+Fixpoint star_rounds (n : nat) (L : raft) (Fs : list raft) : Res (raft * list raft) :=
+  match n with
+  | O => Ok (L, Fs)
+  | S k => x <- star_round L Fs ;; star_rounds k (fst x) (snd x)
+  end.
+
+Lemma mapM_app_inv {A B} (g : A -> Res B) a : forall b ys,
+  mapM g (a ++ b) = Ok ys ->
+  exists a' b', ys = a' ++ b' /\ mapM g a = Ok a' /\ mapM g b = Ok b'.
+Proof.
+  induction a as [|x t IH]; intros b ys H; cbn [app mapM] in *.
+  - exists [], ys. auto.
+  - inv_bind H. inv_bind H. inversion H; subst ys; clear H.
+    destruct (IH _ _ Hx0) as (a' & b' & E & Ha & Hb). subst x1.
+    exists (x0 :: a'), b'. split; [reflexivity|]. rewrite Hx. cbn [bind]. rewrite Ha. auto.
+Qed.
+
+Lemma mapM_length {A B} (g : A -> Res B) xs : forall ys, mapM g xs = Ok ys -> length ys = length xs.
+Proof.
+  induction xs as [|x t IH]; intros ys H; cbn [mapM] in H.
+  - inversion H. reflexivity.
+  - inv_bind H. inv_bind H. inversion H; subst ys. cbn [length]. f_equal. apply IH. exact Hx0.
+Qed.
+
+Lemma mapM_In {A B} (g : A -> Res B) xs : forall ys y,
+  mapM g xs = Ok ys -> In y ys -> exists x, In x xs /\ g x = Ok y.
+Proof.
+  induction xs as [|x t IH]; intros ys y H Hy; cbn [mapM] in H.
+  - inversion H; subst ys. destruct Hy.
+  - inv_bind H. inv_bind H. inversion H; subst ys; clear H. destruct Hy as [<-|Hy].
+    + exists x. split; [left; reflexivity|exact Hx].
+    + destruct (IH _ _ Hx0 Hy) as (x' & I & E). exists x'. split; [right; exact I|exact E].
+Qed.
+
+Lemma mapM_cons_inv {A B} (g : A -> Res B) x t ys :
+  mapM g (x :: t) = Ok ys -> exists y t', ys = y :: t' /\ g x = Ok y /\ mapM g t = Ok t'.
+Proof. cbn [mapM]. intros H. inv_bind H. inv_bind H. inversion H; subst. eauto. Qed.
+
+(* a relation on two lists of equal length, established split by split *)
+Lemma Forall2_splits {A B} (P : A -> B -> Prop) : forall xs ys,
+  length ys = length xs ->
+  (forall a x b, xs = a ++ x :: b ->
+     exists a' y b', ys = a' ++ y :: b' /\ length a' = length a /\ P x y) ->
+  Forall2 P xs ys.
+Proof.
+  induction xs as [|x t IH]; intros ys Hlen Hs.
+  - destruct ys; [constructor|discriminate].
+  - destruct ys as [|y t']; [discriminate|]. constructor.
+    + destruct (Hs [] x t eq_refl) as (a' & y0 & b' & E & La & Hp).
+      destruct a'; [|discriminate]. cbn in E. inversion E; subst. exact Hp.
+    + apply IH; [cbn in Hlen; lia|]. intros a x' b E.
+      destruct (Hs (x :: a) x' b ltac:(rewrite E; reflexivity)) as (a' & y0 & b' & E' & La & Hp).
+      destruct a' as [|y1 a'']; [discriminate|]. cbn in E'. inversion E'; subst.
+      exists a'', y0, b'. split; [reflexivity|]. split; [cbn in La; lia|exact Hp].
+Qed.
+
+(* the star round, projected on one follower *)
+Lemma star_round_split L A F B L' Fs' :
+  star_round L (A ++ F :: B) = Ok (L', Fs') ->
+  exists A1 B1 A' F' B',
+    mapM (fun F => steps F (to_peer (r_id F) (r_msgs L))) A = Ok A1 /\
+    mapM (fun F => steps F (to_peer (r_id F) (r_msgs L))) B = Ok B1 /\
+    Fs' = A' ++ F' :: B' /\ length A' = length A /\ length B' = length B /\
+    view_round L F (concat (map (replies (r_id L)) A1)) (concat (map (replies (r_id L)) B1))
+      = Ok (L', F').
+Proof.
+  unfold star_round. intros H. inv_bind H. rename x into Fs1. inv_bind H. rename x into L1.
+  inv_bind H. destruct x as [L2 hr]. inv_bind H. rename x into Fs2. cbn [fst] in H.
+  inversion H; subst L' Fs'; clear H.
+  destruct (mapM_app_inv _ _ _ _ Hx) as (A1 & FB1 & -> & HA & HFB).
+  destruct (mapM_cons_inv _ _ _ _ HFB) as (F1 & B1 & -> & HF & HB).
+  destruct (mapM_app_inv _ _ _ _ Hx2) as (A2 & FB2 & -> & HA2 & HFB2).
+  destruct (mapM_cons_inv _ _ _ _ HFB2) as (F2 & B2 & -> & HF2 & HB2).
+  exists A1, B1, A2, F2, B2. split; [exact HA|]. split; [exact HB|]. split; [reflexivity|].
+  split; [rewrite (mapM_length _ _ _ HA2), (mapM_length _ _ _ HA); reflexivity|].
+  split; [rewrite (mapM_length _ _ _ HB2), (mapM_length _ _ _ HB); reflexivity|].
+  unfold view_round. rewrite HF. cbn [bind].
+  rewrite map_app, concat_app in Hx0. cbn [map concat] in Hx0. unfold replies at 2 in Hx0.
+  rewrite Hx0. cbn [bind]. rewrite Hx1. cbn [bind].
+  inv_bind HF2. rewrite Hx3. cbn [bind fst]. inversion HF2; subst. reflexivity.
+Qed.
+
+(* ================================================================== *)
+(* 7.5 the star invariant and convergence                              *)
+(* ================================================================== *)
+Section Star.
+
+(* lof id: the index from which follower id is known to agree (its initial matched) *)
+Variables (LL : LL) (T l : N) (rw rwl : bool) (l0 : raft_log) (lof : N -> N).
+Hypothesis HLL : LeaderLog LL.
+Hypothesis HT : T <> 0.
+Hypothesis Hl0 : RepInv rwl l0.
+Hypothesis Habs0 : abs l0 = LL.
+
+(* the pair invariant of one follower, with its side conditions *)
+Definition FolInv (Hb : N) (L F : raft) : Prop :=
+  l <> r_id F /\ ll_base LL <= lof (r_id F) /\
+  (exists t, ll_term LL (lof (r_id F)) = SOk t) /\
+  exists a, PairInv LL T l (r_id F) (lof (r_id F)) rw l0 Hb a L F.
+
+Definition StarInv (Hb : N) (L : raft) (Fs : list raft) : Prop :=
+  NoDup (map r_id Fs) /\ Forall (FolInv Hb L) Fs.
+
+Lemma resp_chain_all f a ms c :
+  resp_chain T l f a ms c -> Forall (fun m => exists b, resp_ok T l f b m) ms.
+Proof. induction 1; constructor; eauto. Qed.
+
+(* what a follower answers is, for any other follower, "a response of another follower" *)
+Lemma replies_other Hb L G G1 f :
+  FolInv Hb L G -> steps G (to_peer (r_id G) (r_msgs L)) = Ok G1 -> r_id G <> f ->
+  Forall (other_ok T f) (replies l G1).
+Proof.
+  intros (Hlg & Hlo & HloT & a & HI) Hs Hne.
+  destruct HI as [HC _ HF HFq Hq _ _].
+  destruct (follower_steps LL T l (r_id G) (lof (r_id G)) rw HLL Hlo HT Hlg _ a G G1 HF Hq Hs)
+    as (a1 & resps & _ & _ & _ & M1 & Ch & _).
+  rewrite HFq in M1. cbn [app] in M1. unfold replies. rewrite M1.
+  apply Forall_forall. intros m Hm. unfold to_peer in Hm. apply filter_In in Hm. destruct Hm as [Hm _].
+  pose proof (resp_chain_all _ _ _ _ Ch) as Hall. rewrite Forall_forall in Hall.
+  destruct (Hall m Hm) as (b & Rt & Rf & _ & Rk).
+  split; [exact Rt|]. split; [congruence|].
+  destruct Rk as [(A & B)|[(A & _)|(A & _)]]; auto.
+Qed.
+
+Lemma concat_replies_other Hb L A A1 f :
+  mapM (fun F => steps F (to_peer (r_id F) (r_msgs L))) A = Ok A1 ->
+  (forall G, In G A -> FolInv Hb L G /\ r_id G <> f) ->
+  Forall (other_ok T f) (concat (map (replies l) A1)).
+Proof.
+  intros HA Hall. apply Forall_forall. intros m Hm. apply in_concat in Hm.
+  destruct Hm as (ms & Hms & Hm). apply in_map_iff in Hms. destruct Hms as (G1 & <- & HG1).
+  destruct (mapM_In _ _ _ _ HA HG1) as (G & HG & Hs). destruct (Hall G HG) as [HI Hne].
+  pose proof (replies_other Hb L G G1 f HI Hs Hne) as Hf. rewrite Forall_forall in Hf. apply Hf. exact Hm.
+Qed.
+
+Lemma star_round_length L Fs L' Fs' : star_round L Fs = Ok (L', Fs') -> length Fs' = length Fs.
+Proof.
+  unfold star_round. intros H. inv_bind H. inv_bind H. inv_bind H. inv_bind H. inversion H; subst.
+  rewrite (mapM_length _ _ _ Hx2), (mapM_length _ _ _ Hx). reflexivity.
+Qed.
+
+Lemma FolInv_leader_id Hb L F : FolInv Hb L F -> r_id L = l.
+Proof. intros (_ & _ & _ & a & HI). apply (lc_id _ _ _ _ (pv_core _ _ _ _ _ _ _ _ _ _ _ HI)). Qed.
+
+(* one round of the star: every follower sees a view_round *)
+Lemma star_round_inv Hb L Fs L' Fs' :
+  StarInv Hb L Fs -> star_round L Fs = Ok (L', Fs') ->
+  Forall2 (fun F F' => r_id F' = r_id F /\ FolInv Hb L' F' /\
+             exists pre post, Forall (other_ok T (r_id F)) pre /\ Forall (other_ok T (r_id F)) post /\
+                              view_round L F pre post = Ok (L', F')) Fs Fs'.
+Proof.
+  intros [Hnd Hall] H. apply Forall2_splits; [eapply star_round_length; exact H|].
+  intros A F B E. subst Fs.
+  rewrite Forall_forall in Hall.
+  assert (HIF : FolInv Hb L F) by (apply Hall; apply in_or_app; right; left; reflexivity).
+  rewrite map_app in Hnd. cbn [map] in Hnd.
+  pose proof (NoDup_remove_2 _ _ _ Hnd) as Hnin.
+  destruct (star_round_split L A F B L' Fs' H) as (A1 & B1 & A' & F' & B' & HA & HB & -> & LA & LB & Hv).
+  rewrite (FolInv_leader_id _ _ _ HIF) in Hv.
+  assert (Hpre : Forall (other_ok T (r_id F)) (concat (map (replies l) A1))).
+  { eapply concat_replies_other; [exact HA|]. intros G HG. split.
+    - apply Hall. apply in_or_app. left. exact HG.
+    - intros Eid. apply Hnin. apply in_or_app. left. rewrite <- Eid. apply in_map. exact HG. }
+  assert (Hpost : Forall (other_ok T (r_id F)) (concat (map (replies l) B1))).
+  { eapply concat_replies_other; [exact HB|]. intros G HG. split.
+    - apply Hall. apply in_or_app. right. right. exact HG.
+    - intros Eid. apply Hnin. apply in_or_app. right. rewrite <- Eid. apply in_map. exact HG. }
+  exists A', F', B'. split; [reflexivity|]. split; [exact LA|].
+  destruct HIF as (Hlg & Hlo & HloT & a & HI).
+  destruct (pv_pr _ _ _ _ _ _ _ _ _ _ _ HI) as (pr & Hg & _).
+  destruct (view_round_inv LL T l (r_id F) (lof (r_id F)) rw HLL Hlo HloT HT Hlg rwl l0 Hl0 Habs0
+              Hb a L F _ _ L' F' pr HI Hg Hpre Hpost Hv) as (a' & pr' & _ & HI' & _).
+  assert (Eid : r_id F' = r_id F).
+  { apply (fi_id _ _ _ _ _ _ _ (pv_F _ _ _ _ _ _ _ _ _ _ _ HI')). }
+  split; [exact Eid|]. split.
+  - unfold FolInv. rewrite Eid. split; [exact Hlg|]. split; [exact Hlo|]. split; [exact HloT|].
+    exists a'. exact HI'.
+  - eexists. eexists. split; [exact Hpre|]. split; [exact Hpost|exact Hv].
+Qed.
+
+Lemma Forall2_ids (P : raft -> raft -> Prop) Fs Fs' :
+  Forall2 (fun F F' => r_id F' = r_id F /\ P F F') Fs Fs' -> map r_id Fs' = map r_id Fs.
+Proof. induction 1 as [|x y xs ys [E _] _ IH]; cbn [map]; [reflexivity|]. rewrite E, IH. reflexivity. Qed.
+
+Lemma star_round_StarInv Hb L Fs L' Fs' :
+  StarInv Hb L Fs -> star_round L Fs = Ok (L', Fs') -> StarInv Hb L' Fs'.
+Proof.
+  intros HS H. pose proof (star_round_inv Hb L Fs L' Fs' HS H) as HF. split.
+  - rewrite (Forall2_ids _ _ _ HF). apply HS.
+  - clear HS H. induction HF as [|x y xs ys (_ & HI & _) _ IH]; constructor; auto.
+Qed.
+
+(* n rounds: every follower sees n view rounds *)
+Lemma star_rounds_view n : forall Hb L Fs L' Fs',
+  StarInv Hb L Fs -> star_rounds n L Fs = Ok (L', Fs') ->
+  StarInv Hb L' Fs' /\
+  Forall2 (fun F F' => r_id F' = r_id F /\ vrounds T (r_id F) n L F L' F') Fs Fs'.
+Proof.
+  induction n as [|n IH]; intros Hb L Fs L' Fs' HS H; cbn [star_rounds] in H.
+  - inversion H; subst L' Fs'. split; [exact HS|].
+    clear. induction Fs; constructor; auto. split; [reflexivity|constructor].
+  - inv_bind H. destruct x as [L1 Fs1]. cbn [fst snd] in H.
+    pose proof (star_round_inv Hb L Fs L1 Fs1 HS Hx) as H1.
+    pose proof (star_round_StarInv Hb L Fs L1 Fs1 HS Hx) as HS1.
+    destruct (IH Hb L1 Fs1 L' Fs' HS1 H) as [HS' H2]. split; [exact HS'|].
+    clear HS HS1 HS' Hx H IH. revert Fs' H2.
+    induction H1 as [|F F1 xs ys (E1 & _ & pre & post & Hp & Hq & Hv) _ IHl]; intros Fs' H2.
+    + inversion H2. constructor.
+    + inversion H2 as [|? F' ? ys' (E2 & Hr) Hrest]; subst. constructor.
+      * split; [congruence|]. rewrite E1 in Hr.
+        eapply vr_S with (pre := pre) (post := post); eassumption.
+      * apply IHl. exact Hrest.
+Qed.
+
+Lemma Forall2_impl_in {A B} (P Q : A -> B -> Prop) xs ys :
+  (forall x y, In x xs -> P x y -> Q x y) -> Forall2 P xs ys -> Forall2 Q xs ys.
+Proof.
+  intros H HF. induction HF as [|x y xs' ys' Hp _ IH]; constructor.
+  - apply H; [left; reflexivity|exact Hp].
+  - apply IH. intros x0 y0 Hi. apply H. right. exact Hi.
+Qed.
+
+(* the bound on one follower's measure *)
+Definition star_bound (Hb last m : N) : nat :=
+  (N.to_nat (Hb + 2) * N.to_nat (pair_measure_bound last m))%nat.
+
+(* MAIN 7a: every follower converges, each within its own pair bound *)
+Theorem star_converges Hb L Fs N0 L' Fs' :
+  StarInv Hb L Fs -> 1 <= Hb ->
+  (forall F, In F Fs -> (star_bound Hb (ll_last LL) (lof (r_id F)) <= N0)%nat) ->
+  star_rounds N0 L Fs = Ok (L', Fs') ->
+  StarInv Hb L' Fs' /\
+  Forall2 (fun F F' => r_id F' = r_id F /\
+             exists pr', get_pr L' (r_id F) = Some pr' /\ matched pr' = ll_last LL /\
+                         Agree LL (abs (r_log F')) (lof (r_id F)) (ll_last LL)) Fs Fs'.
+Proof.
+  intros HS HH HN H.
+  destruct (star_rounds_view N0 Hb L Fs L' Fs' HS H) as [HS' HV]. split; [exact HS'|].
+  destruct HS as [_ Hall]. rewrite Forall_forall in Hall.
+  eapply Forall2_impl_in; [|exact HV]. clear HV. intros F F' HF (Eid & Hv).
+  split; [exact Eid|].
+  destruct (Hall F HF) as (Hlg & Hlo & HloT & a & HI).
+  destruct (pv_pr _ _ _ _ _ _ _ _ _ _ _ HI) as (pr & Hg & HP).
+  pose proof (ag_lastL _ _ _ _ (fi_agree _ _ _ _ _ _ _ (pv_F _ _ _ _ _ _ _ _ _ _ _ HI))) as Ha.
+  pose proof (mu_bound LL T l (r_id F) (lof (r_id F)) Hlo HT Hlg a pr HP Ha) as Hmu.
+  pose proof (pi_lo _ _ _ _ HP) as Hlom.
+  assert (Hmu' : mu LL pr <= N.of_nat (N.to_nat (pair_measure_bound (ll_last LL) (lof (r_id F))))).
+  { unfold pair_measure_bound.
+    assert ((ll_last LL - matched pr) * (ll_last LL + 3) <= (ll_last LL - lof (r_id F)) * (ll_last LL + 3))
+      by (apply N.mul_le_mono_r; lia).
+    lia. }
+  destruct (v_converges_measure LL T l (r_id F) (lof (r_id F)) rw HLL Hlo HloT HT Hlg rwl l0 Hl0 Habs0
+              _ Hb a L F pr N0 L' F' HI Hg HH Hmu' (HN F HF) Hv) as (a' & pr' & HI' & Hg' & Hm').
+  exists pr'. split; [exact Hg'|]. split; [exact Hm'|].
+  destruct (PairInv_matched_le _ _ _ _ _ _ _ _ _ _ _ _ HI' Hg') as [HP' Ha'].
+  pose proof (pi_b _ _ _ _ HP').
+  pose proof (fi_agree _ _ _ _ _ _ _ (pv_F _ _ _ _ _ _ _ _ _ _ _ HI')) as Hag.
+  replace (ll_last LL) with a' by lia. exact Hag.
+Qed.
+
+End Star.
